@@ -175,7 +175,10 @@ def run_real(rig, sc, timeout=40):
         return f
 
     sigs = [(mk_trigger(t * u), SIGNO[name]) for t, name in sc["sigs"]]
-    res = rig.run(puppet_scenario(sc), nextest_config(sc), args=["--no-fail-fast", "--test-threads", "4"],
+    args = ["--no-fail-fast", "--test-threads", "4"]
+    if sc.get("no_capture"):
+        args.append("--no-capture")   # tests inherit stdout / stderr; timers, groups and signals as usual
+    res = rig.run(puppet_scenario(sc), nextest_config(sc), args=args,
                   signals=sigs, timeout=timeout, supervise_stop=True)
     return res
 
